@@ -19,6 +19,7 @@ import (
 	"sort"
 	"strconv"
 	"strings"
+	"sync"
 
 	"github.com/go-faster/jx"
 
@@ -880,6 +881,89 @@ func factsErrors(repo string) (string, int) {
 	return sb.String(), len(codes) + 3
 }
 
+type orderFS struct {
+	names []string
+}
+
+func (m *orderFS) WriteFile(name string, content []byte) error {
+	m.names = append(m.names, name) // WriteSource may call this from several goroutines: guarded below by GOMAXPROCS(1)? no — by a mutex
+	return nil
+}
+
+type lockedFS struct {
+	mu sync.Mutex
+	in orderFS
+}
+
+func (m *lockedFS) WriteFile(name string, content []byte) error {
+	m.mu.Lock()
+	defer m.mu.Unlock()
+	return m.in.WriteFile(name, content)
+}
+
+// factsGenOrder: (observed) the file names WriteSource writes for a document that needs every template, with
+// every feature on — one entry per WriteFile call; (syntactic) getBuffer resets the buffer it takes from the pool.
+func factsGenOrder(repo string) (string, int) {
+	const doc = `{"openapi":"3.1.0","info":{"title":"t","version":"1"},
+	"servers":[{"url":"https://{r}.example.com","variables":{"r":{"default":"eu"}}}],
+	"paths":{"/a/{id}":{"post":{"operationId":"probe","security":[{"k":[]}],
+	"parameters":[{"name":"id","in":"path","required":true,"schema":{"type":"string"}},
+	{"name":"f","in":"query","style":"deepObject","schema":{"$ref":"#/components/schemas/Q"}}],
+	"requestBody":{"required":true,"content":{"application/json":{"schema":{"$ref":"#/components/schemas/P"}}}},
+	"responses":{"200":{"description":"ok","content":{"application/json":{"schema":{"$ref":"#/components/schemas/P"}}}},
+	"404":{"description":"no","content":{"application/json":{"schema":{"$ref":"#/components/schemas/Q"}}}}}}}},
+	"webhooks":{"h":{"post":{"operationId":"hook","requestBody":{"content":{"application/json":{"schema":{"$ref":"#/components/schemas/Q"}}}},"responses":{"200":{"description":"ok"}}}}},
+	"components":{"securitySchemes":{"k":{"type":"apiKey","in":"header","name":"X-K"}},
+	"schemas":{"P":{"type":"object","required":["s"],"properties":{"s":{"type":"string","minLength":1,"default":"x"},"n":{"type":"integer","default":3}}},
+	"Q":{"type":"object","properties":{"a":{"type":"string"}}}}}}`
+	spec, err := ogen.Parse([]byte(doc))
+	if err != nil {
+		fail("genorder probe document: %v", err)
+	}
+	fset := gen.FeatureSet{}
+	for _, f := range gen.AllFeatures {
+		_ = fset.Enable(f.Name)
+	}
+	g, err := gen.NewGenerator(spec, gen.Options{Generator: gen.GenerateOptions{Features: &gen.FeatureOptions{DisableAll: true, Enable: fset}}})
+	if err != nil {
+		fail("genorder probe document: generator: %v", err)
+	}
+	fs := &lockedFS{}
+	if err := g.WriteSource(fs, "api"); err != nil {
+		fail("genorder probe document: write: %v", err)
+	}
+	names := append([]string{}, fs.in.names...)
+	sort.Strings(names)
+	if len(names) < 20 {
+		fail("genorder probe document: only %d files written — the probe no longer reaches every template", len(names))
+	}
+	// getBuffer: a Reset call between the pool's Get and the return
+	_, f := parseFile(filepath.Join(repo, "gen", "write.go"))
+	gb := findFunc(f, "getBuffer")
+	if gb == nil {
+		fail("gen/write.go: getBuffer not found")
+	}
+	var calls []string
+	walkCalls(f, gb, map[string]bool{}, func(c *ast.CallExpr) { calls = append(calls, callName(c)) })
+	resets := false
+	seenGet := false
+	for _, c := range calls {
+		if strings.HasSuffix(c, ".Get") {
+			seenGet = true
+		}
+		if seenGet && (strings.HasSuffix(c, ".Reset") || strings.HasSuffix(c, ".Truncate")) {
+			resets = true
+		}
+	}
+	var sb strings.Builder
+	sb.WriteString("/-! GENERATED by harness/cmd/extract (WriteSource observed on the linked package; getBuffer read from gen/write.go) — do not edit. -/\nnamespace Facts.GenOrder\n")
+	fmt.Fprintf(&sb, "/-- one entry per `WriteFile` call of `WriteSource` on a document that needs every template, all features on (sorted) -/\ndef writtenFiles : List String := %s\n", leanList(names))
+	fmt.Fprintf(&sb, "/-- the calls of `getBuffer`, in source order -/\ndef getBufferCalls : List String := %s\n", leanList(calls))
+	fmt.Fprintf(&sb, "/-- a `Reset` follows the pool's `Get` -/\ndef getBufferResets : Bool := %v\n", resets)
+	sb.WriteString("end Facts.GenOrder\n")
+	return sb.String(), len(names) + 1
+}
+
 func main() {
 	repo := flag.String("repo", "/repo", "repository root")
 	out := flag.String("out", "", "output directory (lean/Ogen/Generated)")
@@ -905,6 +989,8 @@ func main() {
 			text, n = factsTmpl(*repo)
 		case "errors":
 			text, n = factsErrors(*repo)
+		case "genorder":
+			text, n = factsGenOrder(*repo)
 		default:
 			fail("unknown fact set %q", name)
 		}
